@@ -63,10 +63,17 @@ def match(got, exp):
     return None if i == len(got) else "extra_characters"
 
 
-def check_value(acc, spec):
-    f = C.build(spec)
-    fc = C.cells(f)
-    shown = C.show_spec(spec)
+def check_value(acc, spec, how=None):
+    if how is None:
+        f = C.build(spec)
+        fc = C.cells(f)
+        shown = C.show_spec(spec)
+    else:
+        f, fc = C.build_repeated(spec, how)
+        shown = {"spec": C.show_spec(spec), "value": how}
+        if C.cells(f) != fc:
+            acc.failure("harness:repeated_value", {"f": shown}, "")
+            return
     snap = C.snapshot(f)
     widths = [W[c] for c, _ in fc]
     total = sum(widths)
@@ -132,6 +139,13 @@ def shard(args):
                 i += 1
                 if i % nshards == idx:
                     check_value(acc, spec)
+    for n in range(1, 4):
+        for t in itertools.product(sigma, repeat=n):
+            for spec in C.cuts("".join(t), max_runs=2):
+                for how in C.REPEAT_HOWS:
+                    i += 1
+                    if i % nshards == idx:
+                        check_value(acc, spec, how)
     return acc.export()
 
 
@@ -155,6 +169,10 @@ def run(ctx):
 
 def replay(ctx, case):
     acc = Acc()
-    spec = tuple((t, tuple(sorted(a.items()))) for t, a in case["f"])
-    check_value(acc, spec)
+    fd = case["f"]
+    how = None
+    if isinstance(fd, dict):
+        how, fd = fd["value"], fd["spec"]
+    spec = tuple((t, tuple(sorted(a.items()))) for t, a in fd)
+    check_value(acc, spec, how)
     return [(s, e["cases"][0]["message"]) for s, e in acc.fail.items()]
